@@ -104,7 +104,18 @@ func NewTicker(d time.Duration) *Ticker {
 		rt := time.NewTicker(d)
 		return &Ticker{C: rt.C, real: rt, period: d}
 	}
-	return &Ticker{C: make(chan time.Time), period: d, next: verifrt.NowNanos() + int64(d)}
+	c := make(chan time.Time, 1)
+	t := &Ticker{C: c, period: d, next: verifrt.NowNanos() + int64(d)}
+	// a select over `<-t.C` (rewritten by the overlay into verifrt.SelectRecv) sees the tick when the virtual clock
+	// has reached it
+	verifrt.RegisterTimerChan(c, func() bool {
+		if !t.stop && len(c) == 0 && verifrt.NowNanos() >= t.next {
+			c <- verifrt.Now()
+			t.next += int64(t.period)
+		}
+		return len(c) > 0
+	})
+	return t
 }
 
 func (t *Ticker) Stop() {
